@@ -46,6 +46,7 @@ DECIDED = [
     "C13.7 updating a pool without the local state / local root raises before any transport",
     "C13.8 root backend scope table (check_root/get_root/set_root/unset_root)",
     "C13.9 TransferOps routing (remote / link / local) agrees across the five operations",
+    "C13.10 compare_chain and transfer_chain walk the same files of the backing chain; get/set transfer down/up; unset keeps the chain",
 ]
 NOT_DECIDED = ["actual contents of sources", "truth of checksums"]
 MIN_INSTANCES = 30
@@ -432,6 +433,7 @@ def run(ctx: Ctx) -> None:
     ctx.call(refuse_without_local, "7")
     ctx.call(root_scope_table, "8")
     ctx.call(routing, "9")
+    ctx.call(chain_siblings, "10")
 
 
 MUTANTS = [
@@ -450,6 +452,65 @@ MUTANTS = [
     ("show-cache-always", POOL, "        if \"own\" in scopes:\n            cache_states = cls._show(params, object)\n        else:\n            cache_states = []", "        cache_states = cls._show(params, object)", "2s"),
     ("root-upload-without-local", POOL, "            if not local_root_exists:\n                raise RuntimeError(\"Updating state pool requires local root states\")\n", "", "7r"),
     ("link-routed-local", POOL, "            cls.upload_link(cache_path, path.replace(\";\", \"\"), params)", "            cls.upload_local(cache_path, path.replace(\";\", \"\"), params)", "9"),
+    ("compare-skips-vm-state", POOL, "                if not cls.ops.compare(cache_path, pool_path, params):\n                    logging.warning(\n                        f\"The vm {vm_id} has different", "                if False and not cls.ops.compare(cache_path, pool_path, params):\n                    logging.warning(\n                        f\"The vm {vm_id} has different", "10"),
     ("P-filter-demorgan", POOL, "            if source_scope == \"own\" or source_scope not in scopes:\n                continue\n            logging.debug(f\"Choosing {source} as the set source to use\")",
      "            if not (source_scope != \"own\" and source_scope in scopes):\n                continue\n            logging.debug(f\"Choosing {source} as the set source to use\")", None),
 ]
+
+
+def chain_siblings(ctx: Ctx, rule: str) -> None:
+    """compare_chain and transfer_chain walk the same files of the same backing chain."""
+    import copy
+
+    fc = ctx.repo.func(f"{POOL}:QCOW2ImageTransfer.compare_chain")
+    ft = ctx.repo.func(f"{POOL}:QCOW2ImageTransfer.transfer_chain")
+    ctx.touch(fc.ref)
+    ctx.touch(ft.ref)
+
+    def skeleton(fn, op_names):
+        w = [x for x in fn.node.body if isinstance(x, ast.While)]
+        if len(w) != 1:
+            return None
+        w = copy.deepcopy(w[0])
+        calls = []
+
+        class Strip(ast.NodeTransformer):
+            def visit_If(self, node):
+                self.generic_visit(node)
+                # compare_chain: `if not compare(...): warn; return False`  ->  the bare call
+                if isinstance(node.test, ast.UnaryOp) and isinstance(node.test.operand, ast.Call) and call_name(node.test.operand) in op_names:
+                    calls.append(node.test.operand)
+                    return ast.Expr(value=ast.Call(func=ast.Name(id="OP", ctx=ast.Load()), args=node.test.operand.args, keywords=[]))
+                return node
+
+            def visit_Expr(self, node):
+                if isinstance(node.value, ast.Call) and call_name(node.value) in op_names:
+                    calls.append(node.value)
+                    return ast.Expr(value=ast.Call(func=ast.Name(id="OP", ctx=ast.Load()), args=node.value.args, keywords=[]))
+                return node
+
+        w = Strip().visit(w)
+        return ast.dump(w), len(calls)
+
+    a = skeleton(fc, {"compare"})
+    b = skeleton(ft, {"transfer_operation"})
+    ok = a is not None and b is not None and a[0] == b[0] and a[1] == b[1] == 2
+    ctx.record(rule, "SIBLING", f"{POOL}:QCOW2ImageTransfer.compare_chain / transfer_chain",
+               "same walk: for every state of the backing chain every image's <state>.qcow2, plus <state>.state of a vm for the requested state; next = get_dependency",
+               ok, {"operations_per_level": (a[1] if a else None, b[1] if b else None)},
+               "" if ok else "compare_chain and transfer_chain no longer visit the same files: a cache can be judged valid on other files than those that get transferred")
+    defs = [s for s in ast.walk(ft.node) if isinstance(s, ast.Assign) and ast.unparse(s.targets[0]) == "transfer_operation"]
+    ok2 = len(defs) == 1 and ast.unparse(defs[0].value) == "cls.ops.download if down else cls.ops.upload"
+    ctx.record(rule + "d", "PROV", ft.ref, "direction: download if down else upload", ok2, {}, "" if ok2 else "the direction switch of transfer_chain changed")
+    for op, down in (("get", "True"), ("set", "False")):
+        f = ctx.repo.func(f"{POOL}:QCOW2ImageTransfer.{op}")
+        cs = [c for c in calls_in(f.node) if call_name(c) == "transfer_chain"]
+        ok3 = len(cs) == 1 and [ast.unparse(x) for x in cs[0].args] == ["state", "cache_dir", "pool_dir", "params"] and {k.arg: ast.unparse(k.value) for k in cs[0].keywords} == {"down": down}
+        d = {ast.unparse(s.targets[0]): ast.unparse(s.value) for s in f.node.body if isinstance(s, ast.Assign)}
+        ok3 = ok3 and d.get("cache_dir") == "params['swarm_pool']" and d.get("pool_dir") == f"params['{op}_location']" and d.get("state") == f"params['{op}_state']"
+        ctx.record(rule + "t", "PROV", f.ref, f"transport.{op}: transfer_chain({op}_state, own pool, {op}_location, down={down})", ok3, {}, "" if ok3 else f"transport.{op} transfers something else")
+    f = ctx.repo.func(f"{POOL}:QCOW2ImageTransfer.unset")
+    dels = [c for c in calls_in(f.node) if call_name(c) == "delete"]
+    whiles = [x for x in ast.walk(f.node) if isinstance(x, ast.While)]
+    ok4 = len(dels) == 2 and not whiles and "get_dependency" not in ast.unparse(f.node)
+    ctx.record(rule + "u", "COUNT", f.ref, "transport.unset deletes the state's own files only (its backing chain is preserved)", ok4, {}, "" if ok4 else "removing a pool state also touches its backing chain (or not all of its own files)")
